@@ -205,6 +205,7 @@ func (it c15QItem) def() c15QDef {
 type c15QPath struct {
 	Path  string `json:"path"`
 	Batch int    `json:"batch,omitempty"`
+	Col   string `json:"col,omitempty"` // pluck.col: Pluck of a model column on a chain without Select
 }
 
 type c15QPrior struct {
@@ -219,6 +220,7 @@ type c15QSpec struct {
 	Items    []c15QItem `json:"items,omitempty"`
 	Prior    *c15QPrior `json:"prior,omitempty"`
 	Distinct bool       `json:"distinct,omitempty"`
+	DArgs    bool       `json:"dargs,omitempty"` // the list is given as Distinct("a", "b") instead of Distinct().Select("a", "b")
 	Where    string     `json:"where,omitempty"` // "" | score | grp | agenn
 	WV       int        `json:"wv,omitempty"`
 	WS       string     `json:"ws,omitempty"`
@@ -308,13 +310,21 @@ func (s *c15QSpec) chain(db *gorm.DB) *gorm.DB {
 	} else {
 		h = db.Table("c15_sels")
 	}
-	if s.Distinct {
-		h = h.Distinct()
+	if s.Distinct && s.DArgs && s.Form == "strs" {
+		var as []interface{}
+		for _, it := range s.Items {
+			as = append(as, it.def().sql)
+		}
+		h = h.Distinct(as...)
+	} else {
+		if s.Distinct {
+			h = h.Distinct()
+		}
+		if s.Prior != nil {
+			h = c15QApplySelect(h, s.Prior.Form, s.Prior.Items)
+		}
+		h = c15QApplySelect(h, s.Form, s.Items)
 	}
-	if s.Prior != nil {
-		h = c15QApplySelect(h, s.Prior.Form, s.Prior.Items)
-	}
-	h = c15QApplySelect(h, s.Form, s.Items)
 	switch s.Where {
 	case "score":
 		h = h.Where("score >= ?", s.WV)
@@ -639,6 +649,13 @@ func c15QRun(db *gorm.DB, rec *Recorder, h *gorm.DB, s *c15QSpec, p c15QPath) (o
 		for _, v := range vs {
 			out.Elems = append(out.Elems, c15QElem{d.out: c15QCanon(v)})
 		}
+	case "pluck.col":
+		out.Kind = "pluck"
+		var vs []interface{}
+		tx = h.Pluck(p.Col, &vs)
+		for _, v := range vs {
+			out.Elems = append(out.Elems, c15QElem{p.Col: c15QCanon(v)})
+		}
 	case "pluck.typed":
 		out.Kind = "pluck"
 		d := s.Items[0].def()
@@ -712,6 +729,10 @@ func c15QHolds(kind, n string) bool {
 func c15QJudge(s *c15QSpec, p c15QPath, out *c15QOut) string {
 	match, e := s.expected()
 	names, eval := s.outs()
+	if p.Path == "pluck.col" {
+		col := p.Col
+		names, eval = []string{col}, map[string]func(c15QRow) interface{}{col: func(r c15QRow) interface{} { return c15QCol(col, r) }}
+	}
 	lim, off := c15Eff(s.Lims)
 	if strings.HasPrefix(out.Err, "error:") || out.Err == "abort" {
 		if (p.Path == "count" || p.Path == "count+find.maps") && c15QCountAliasPattern(s) && strings.Contains(out.Err, "no such column") {
@@ -1039,6 +1060,9 @@ func c15QGenSpec(rng *rand.Rand, maxN int) *c15QSpec {
 	}
 	// DISTINCT: lists without the key, spelled as strings or with `?` arguments (clause.NamedExpr / user clauses do
 	// not carry the chain's Distinct flag — not a read-path disagreement, every path drops it alike)
+	if s.Form == "none" && rng.Intn(5) == 0 {
+		s.Distinct, s.Lims = true, nil // SELECT DISTINCT * (all rows differ in id); Pluck then selects DISTINCT <column>
+	}
 	if rng.Intn(7) == 0 && (s.Form == "str1" || s.Form == "strs" || s.Form == "slice" || s.Form == "args") && s.Prior == nil {
 		ok := true
 		for _, it := range s.Items {
@@ -1050,7 +1074,19 @@ func c15QGenSpec(rng *rand.Rand, maxN int) *c15QSpec {
 			s.Distinct, s.Lims = true, nil
 		}
 	}
+	// DISTINCT over ONE plain NOT NULL column: Count must send COUNT(DISTINCT col) = the number of rows Find returns
+	if !s.Distinct && rng.Intn(12) == 0 && s.Prior == nil {
+		s.Form = []string{"str1", "strs", "slice"}[rng.Intn(3)]
+		s.Items = []c15QItem{{Key: []string{"grp", "score", "name"}[rng.Intn(3)]}}
+		s.Distinct, s.Lims = true, nil
+	}
+	if s.Distinct && s.Form == "strs" {
+		s.DArgs = rng.Intn(2) == 0
+	}
 	s.Paths = c15QGenPaths(rng, s)
+	if s.Distinct && len(s.Items) == 1 {
+		s.Paths = append(s.Paths, c15QPath{Path: "count"})
+	}
 	return s
 }
 
@@ -1090,6 +1126,9 @@ func c15QGenPaths(rng *rand.Rand, s *c15QSpec) []c15QPath {
 	if len(s.Items) == 1 && s.Items[0].Key != "star" {
 		cands = append(cands, "pluck", "pluck", "pluck.typed", "pluck")
 	}
+	if s.Form == "none" {
+		cands = append(cands, "pluck.col", "pluck.col")
+	}
 	if len(names) == 1 && !c15QHolds("model", names[0]) {
 		// scan.go reads a result set of ONE column that is no field of the destination struct into the struct itself
 		// (the Scanner / time.Time case): a model struct cannot hold that list
@@ -1117,6 +1156,9 @@ func c15QGenPaths(rng *rand.Rand, s *c15QSpec) []c15QPath {
 		p := c15QPath{Path: cands[rng.Intn(len(cands))]}
 		if p.Path == "batches.model" {
 			p.Batch = 1 + rng.Intn(len(s.Rows)/2+2)
+		}
+		if p.Path == "pluck.col" {
+			p.Col = c15QModelCols[rng.Intn(len(c15QModelCols))]
 		}
 		out = append(out, p)
 	}
@@ -1196,6 +1238,8 @@ func c15QLeanOp(s *c15QSpec, p c15QPath) ([]interface{}, []string) {
 	switch p.Path {
 	case "pluck", "pluck.typed":
 		fin = []interface{}{"pluck", id(s.Items[0].def().out)}
+	case "pluck.col":
+		fin = []interface{}{"pluck", id(p.Col)}
 	case "count":
 		fin = []interface{}{"count"}
 	case "count+find.maps":
@@ -1278,7 +1322,7 @@ func c15QRunSpec(r *Result, s *c15QSpec, pend *[]*c15QPend) {
 			h = s.chain(db)
 		}
 		out := c15QRun(db, rec, h, s, p)
-		r.Case("select", canon([]interface{}{s.Bind, s.Form, s.Items, s.Prior, s.Distinct, s.Where, s.Desc, s.Lims, p, len(s.Rows)}), len(s.Rows) > 1 && ncomp > 0)
+		r.Case("select", canon([]interface{}{s.Bind, s.Form, s.Items, s.Prior, s.Distinct, s.DArgs, s.Where, s.Desc, s.Lims, p, len(s.Rows)}), len(s.Rows) > 1 && ncomp > 0)
 		r.H("select.path", p.Path)
 		r.H("select.form", s.Form)
 		r.H("select.computed", fmt.Sprint(ncomp))
